@@ -58,10 +58,14 @@ fn cart_inv(op: &Op, _ctx: &dyn Context, operands: &mut dyn CoordinateSet) -> us
         // to one of the poles. So we force the latitude to the relevant pole and
         // compute the height as |Z| - b
         if p < cutoff {
-            let phi = std::f64::consts::FRAC_PI_2.copysign(Z);
+            // Z.signum() is NaN for a NaN Z: an undefined Z gives an undefined latitude
+            let phi = std::f64::consts::FRAC_PI_2 * Z.signum();
             let h = Z.abs() - b;
             coord = Coor4D::raw(lam, phi, h, t);
             operands.set_coord(i, &coord);
+            if ![lam, phi, h, t].iter().any(|c| c.is_nan()) {
+                successes += 1;
+            }
             continue;
         }
 
